@@ -78,6 +78,13 @@ func ruleVerifyWindow(c *RC) *RuleResult {
 					name := strings.TrimSuffix(strings.TrimPrefix(ev, "fn:"), "=nil")
 					if f := c.Prog.fn(name); f != nil && ctors[f] {
 						why = name + " returned nil"
+						// ... but a constructor that gives up while a transaction is missing defers the check to the
+						// moment the proposal is complete: somebody has to make it then
+						if c.nilWhileTxMissing(f) && !completes[k.table] {
+							why = ""
+							r.fail(h.Name+"/kept-unverified:tx-missing", c.Prog.Pos(h.Decl), fmt.Sprintf("a current-view %s payload stays stored without Verify because %s returns nil while a transaction of the proposal is missing, and completing the proposal does not re-validate %s: it is counted later without ever being checked", k.kind, name, k.table))
+							why = "-"
+						}
 					}
 				}
 			}
@@ -87,6 +94,9 @@ func ruleVerifyWindow(c *RC) *RuleResult {
 						why = "a transaction is missing (completion re-validates " + k.table + ")"
 					}
 				}
+			}
+			if why == "-" {
+				continue
 			}
 			if why != "" {
 				r.ok(fmt.Sprintf("%s: payload kept unverified because %s", h.Name, why))
@@ -231,4 +241,19 @@ func (c *RC) reachesCallbackSameEpoch(fn *FuncInfo, cb string) bool {
 		return false
 	}
 	return visit(fn)
+}
+
+// nilWhileTxMissing: the lazy constructor has a way out with a nil result on which a transaction of the proposal is
+// known to be missing (the nil is *because* of that, or at least in that situation).
+func (c *RC) nilWhileTxMissing(f *FuncInfo) bool {
+	at := fAllTx().Atom
+	for _, e := range c.exitsOf(f) {
+		if len(e.Ret) != 1 || e.Ret[0] == nil || e.Ret[0].K != KNil {
+			continue
+		}
+		if v, known := e.F.value(at); known && !v {
+			return true
+		}
+	}
+	return false
 }
